@@ -3,6 +3,9 @@ CONSTANTS
   MaxN = 30
   MaxF = 6
   Kinds <- Both
+  MaxRenders = 3
+  MemoByFile = FALSE
 INVARIANT SnippetP
 INVARIANT FramesP
+INVARIANT HistoryP
 INVARIANT Emit
